@@ -345,10 +345,10 @@ PROJS = [('x', 1), ('x', 2), ('x,1', 2), ('*', 3)]
 PROJ_KEY = {('x', 1): 'x,1', ('x', 2): 'x,2', ('x,1', 2): 'x*,1,2', ('*', 3): '**,3'}     # hand-encoded per the documented rule
 PROJ_LEAD = {('x', 2): 1}                                                                  # Proj -> id of the leading Person
 PROJ_DETAIL = [('x', 1), ('x', 2)]                                                         # projects that have a ProjDetail
-PERSON1 = dict(id=1, name='Ann', note='n1', dept=1, fav=('x,1', 2), projects=[('x', 1), ('x,1', 2), ('*', 3)],
+PERSON1 = dict(id=1, name='Ann', note='n1', de=7, dept=1, fav=('x,1', 2), projects=[('x', 1), ('x,1', 2), ('*', 3)],
                watching=[('x', 1), ('x', 2)], leads=[('x', 2)])
-PERSON2 = dict(id=2, name='Bob', note='', dept=None, fav=None, projects=[], watching=[], leads=[])
-PERSON_ATTRS = [('id', 'plain', False), ('name', 'plain', False), ('note', 'plain', True), ('dept', 'one', False), ('fav', 'one', False),
+PERSON2 = dict(id=2, name='Bob', note='', de=None, dept=None, fav=None, projects=[], watching=[], leads=[])
+PERSON_ATTRS = [('id', 'plain', False), ('name', 'plain', False), ('note', 'plain', True), ('de', 'plain', False), ('dept', 'one', False), ('fav', 'one', False),
                 ('projects', 'many', False), ('watching', 'many', False), ('leads', 'many', False)]
 
 
@@ -384,24 +384,38 @@ def setup():
         n = Required(int)
         PrimaryKey(proj, n)
 
+    class Box(db.Entity):
+        id = PrimaryKey(int)
+        memos = Set('Memo', reverse='dept')
+        secret = Optional('Memo', reverse='boss')      # one-to-one, column on the Memo side
+
+    class Memo(db.Entity):                      # auto-generated key: a new object has no key until it is flushed
+        id = PrimaryKey(int, auto=True)
+        dept = Optional(Box)
+        boss = Optional(Box, reverse='secret')
+
     class Person(db.Entity):
         id = PrimaryKey(int)
         name = Required(str)
         note = Optional(str, lazy=True)
+        de = Optional(int)                          # a name that is a substring of another attribute's name ('dept')
         dept = Optional(Dept)
         fav = Optional(Proj, reverse='fans')
         projects = Set(Proj, reverse='members')
         watching = Set(ProjDetail)
         leads = Set(Proj, reverse='lead')
-    E.update(Dept=Dept, Proj=Proj, ProjDetail=ProjDetail, Task=Task, Person=Person)
+    for _cls in (Proj, Person, Dept):            # picklable by reference: module-level names
+        _cls.__qualname__ = _cls.__name__; _cls.__module__ = __name__; globals()[_cls.__name__] = _cls
+    E.update(Memo=Memo, Box=Box, Dept=Dept, Proj=Proj, ProjDetail=ProjDetail, Task=Task, Person=Person)
     db.bind('sqlite', ':memory:')
     db.generate_mapping(create_tables=True)
     with db_session:
         d = Dept(id=1, name='D')
+        Box(id=1)
         ps = {k: Proj(code=k[0], no=k[1]) for k in PROJS}
         ds = {k: ProjDetail(proj=ps[k], text='t') for k in PROJ_DETAIL}
         Task(proj=ps[('x', 1)], n=5)
-        Person(id=1, name='Ann', note='n1', dept=d, fav=ps[PERSON1['fav']], projects=[ps[k] for k in PERSON1['projects']],
+        Person(id=1, name='Ann', note='n1', de=7, dept=d, fav=ps[PERSON1['fav']], projects=[ps[k] for k in PERSON1['projects']],
                watching=[ds[k] for k in PERSON1['watching']], leads=[ps[k] for k in PERSON1['leads']])
         Person(id=2, name='Bob')
 
@@ -535,7 +549,59 @@ def real_bag_watching(both: bool, wl: bool, ro: bool, use_only: bool, o0: bool, 
     return ok(_real_bag(both, True, wl, ro, only, exclude))
 
 
-HARNESSES = [('pk2_roundtrip', None), ('pk3_roundtrip', None), ('pk2_int_str_roundtrip', None),
+def real_to_dict_pending(coll: bool, preload: bool, ro: bool, two: bool) -> bool:
+    """to_dict() of a LOADED object whose relationship just gained a NEW, unflushed object with an auto-generated key: the dict
+    reports the real key (to_dict flushes what it needs), never None.
+
+    post: _
+    """
+    from pony.orm import db_session, rollback
+    _fresh()
+    with db_session:
+        try:
+            d = E['Box'][1]
+            if preload: list(d.memos); d.secret
+            if coll:
+                new = [E['Memo'](dept=d)] + ([E['Memo'](dept=d)] if two else [])
+                got = d.to_dict(with_collections=True, related_objects=ro)['memos']
+                if ro: return ok(sorted(got, key=id) == sorted(new, key=id) and all(m.id is not None for m in got))
+                return ok(None not in got and len(got) == len(new) and sorted(got) == sorted(m.id for m in new))
+            m = E['Memo'](boss=d)
+            got = d.to_dict(related_objects=ro)['secret']
+            return ok((got is m) if ro else (got is not None and got == m.id))
+        finally:
+            rollback()
+
+
+def real_pickle_query_result(n: int, k: int, paged: bool) -> bool:
+    """a pickled lazy slice of a query unpickles to exactly the rows of that slice
+
+    pre: 0 <= n <= 3 and 0 <= k <= 3
+    post: _
+    """
+    import pickle
+    from pony.orm import db_session, rollback, select
+    n = 0 if n == 0 else 1 if n == 1 else 2 if n == 2 else 3
+    k = 0 if k == 0 else 1 if k == 1 else 2 if k == 2 else 3
+    _fresh()
+    from crosshair.tracers import NoTracing
+    with NoTracing(), db_session:
+        try:
+            Proj = E['Proj']
+            q = select(p for p in Proj).order_by(Proj.code, Proj.no)
+            full = [(p.code, p.no) for p in q[:]]
+            if paged:
+                if n == 0: return ok(True)
+                res = q.page(k + 1, n); want = full[k * n:(k + 1) * n]
+            else:
+                res = q.limit(n, offset=k); want = full[k:k + n]
+            back = pickle.loads(pickle.dumps(res))
+            return ok([(p.code, p.no) for p in back] == want and [(p.code, p.no) for p in res] == want)
+        finally:
+            rollback()
+
+
+HARNESSES = [('real_to_dict_pending', 'setup'), ('real_pickle_query_result', 'setup'), ('pk2_roundtrip', None), ('pk3_roundtrip', None), ('pk2_int_str_roundtrip', None),
              ('duck_entity_to_dict_values', None), ('duck_entity_to_dict_select', None),
              ('duck_bag_process_object_1col', None), ('duck_bag_process_object_ncol', None), ('duck_bag_process_object_1attr2col', None),
              ('duck_bag_to_dict_keys', None), ('duck_bag_to_dict_keys_1attr2col', None),
